@@ -334,11 +334,11 @@ b("c12-nullable-stores-in-generating-cache", "C12", CFGF,
   "        if self._nullable_symbols is None:\n            self._generating_symbols = self._nullable_symbols = self._get_generating_or_nullable(True)\n        return self._nullable_symbols",
   "cache-field-is-its-own:get_nullable_symbols")
 b("c12-terminals-seed-both-modes", "C12", CFGF,
-  "        if not nullable:\n            for terminal in self._terminals:\n                g_symbols.add(terminal)\n                to_process.append(terminal)\n",
-  "        for terminal in self._terminals:\n            g_symbols.add(terminal)\n            to_process.append(terminal)\n",
+  "        if not nullable:\n            for terminal in self._terminals:\n                if terminal not in g_symbols:\n                    g_symbols.add(terminal)\n                    to_process.append(terminal)\n",
+  "        for terminal in self._terminals:\n            if terminal not in g_symbols:\n                g_symbols.add(terminal)\n                to_process.append(terminal)\n",
   "terminals-do-not-seed-nullable")
 b("c12-terminals-never-seed", "C12", CFGF,
-  "        if not nullable:\n            for terminal in self._terminals:\n                g_symbols.add(terminal)\n                to_process.append(terminal)\n",
+  "        if not nullable:\n            for terminal in self._terminals:\n                if terminal not in g_symbols:\n                    g_symbols.add(terminal)\n                    to_process.append(terminal)\n",
   "", "terminals-seed-generating")
 b("c12-empty-bodies-not-seeded", "C12", CFGF,
   "        for symbol in self._added_impacts:\n            if symbol not in g_symbols:\n                g_symbols.add(symbol)\n                to_process.append(symbol)\n\n        if not nullable:",
@@ -382,12 +382,12 @@ b("c12-words-empty-unconditional", "C12", CFGF,
 b("c12-words-no-bound-zero-return", "C12", CFGF,
   "            yield []\n        if max_length == 0:\n            return\n", "            yield []\n", "no-word-for-bound-zero")
 b("c12-words-any-head", "C12", CFGF,
-  "                                gen_d[production.head][-1].append(new_word)\n                                if production.head == cfg.start_symbol:\n                                    yield new_word",
-  "                                gen_d[production.head][-1].append(new_word)\n                                yield new_word",
+  "                                gen_d[production.head][-1].append(new_word)\n                                if production.head == cfg.start_symbol:\n                                    yield list(new_word)",
+  "                                gen_d[production.head][-1].append(new_word)\n                                yield list(new_word)",
   "words-only-for-the-start-symbol")
 b("c12-words-no-duplicate-test", "C12", CFGF,
-  "                            if new_word not in gen_d[production.head][-1]:\n                                was_modified = True\n                                gen_d[production.head][-1].append(new_word)\n                                if production.head == cfg.start_symbol:\n                                    yield new_word",
-  "                            if True:\n                                was_modified = True\n                                gen_d[production.head][-1].append(new_word)\n                                if production.head == cfg.start_symbol:\n                                    yield new_word",
+  "                            if new_word not in gen_d[production.head][-1]:\n                                was_modified = True\n                                gen_d[production.head][-1].append(new_word)\n                                if production.head == cfg.start_symbol:\n                                    yield list(new_word)",
+  "                            if True:\n                                was_modified = True\n                                gen_d[production.head][-1].append(new_word)\n                                if production.head == cfg.start_symbol:\n                                    yield list(new_word)",
   "concatenated-words-duplicate-guarded")
 b("c12-words-loop-ignores-bound", "C12", CFGF,
   "        while current_length <= max_length or max_length == -1:", "        while True:",
@@ -777,6 +777,17 @@ b("c18-copy-memo-not-consulted", "C18", "pyformlang/fcfg/feature_structure.py",
 p("c18-p-copy-memo-get", "C18", "pyformlang/fcfg/feature_structure.py",
   "        if self in already_copied:\n            return already_copied[self]\n",
   "        known = already_copied.get(self)\n        if known is not None:\n            return known\n")
+b("fx-f39", "C19", "pyformlang/cfg/cfg.py",
+  "                                    yield list(new_word)\n", "                                    yield new_word\n",
+  "yields-retained-storage")
+p("c19-p-yield-copy-sliced", "C19", "pyformlang/cfg/cfg.py",
+  "                                    yield list(new_word)\n", "                                    yield new_word[:]\n")
+b("fx-f40", "C12", "pyformlang/cfg/cfg.py",
+  "                if terminal not in g_symbols:\n                    g_symbols.add(terminal)\n                    to_process.append(terminal)\n",
+  "                g_symbols.add(terminal)\n                to_process.append(terminal)\n", "each-symbol-pushed-once")
+p("c12-p-terminals-difference", "C12", "pyformlang/cfg/cfg.py",
+  "            for terminal in self._terminals:\n                if terminal not in g_symbols:\n                    g_symbols.add(terminal)\n                    to_process.append(terminal)\n",
+  "            new_terminals = [term for term in self._terminals if term not in g_symbols]\n            g_symbols.update(new_terminals)\n            to_process.extend(new_terminals)\n")
 b("fx-f37", "C15", "pyformlang/cfg/parse_tree.py",
   "            end = son_result + end\n", "            end = derivation + end\n", "derivation-siblings-agree")
 p("c15-p-derivation-extend", "C15", "pyformlang/cfg/parse_tree.py",
